@@ -27,7 +27,8 @@ m={
           "baseline_off_cmd":"cd /repo && cargo test --workspace --no-fail-fast --offline",
           "source_commits": json.load(open('/verif/hook_commits.json')),
           "add_only": True},
- "engines":[{"name":"mv","path":"/verif/engine","serves_properties":sorted(claimed.keys()),"kind_free_text":"Rust binary: seeded proptest generators sharded over 16 threads + exhaustive enumeration of small sub-spaces, independent reference models (RefVM, RefSTF) as oracles, shrinking to JSON replay files"}],
+ "engines":[{"name":"mv","path":"/verif/engine","serves_properties":sorted(claimed.keys()),"kind_free_text":"Rust library + binary: seeded proptest generators sharded over 16 threads + exhaustive enumeration of small sub-spaces, independent reference models (RefVM, RefSTF) as oracles, shrinking to JSON replay files; child-process phases for cross-process determinism (C03) and the legacy window (C07)"},
+            {"name":"mv-fuzz","path":"/verif/fuzz","serves_properties":["C01","C02","C09","C10","C11","C12"],"kind_free_text":"cargo-fuzz / libFuzzer targets fz_decode, fz_vm, fz_stf (thorough tier): bytes decoded into the engine's case types, the property's oracle runs inside the target; seed corpus under /verif/corpus"}],
  "checks":checks,
  "not_applicable":na,
  "notes":"Exit codes: 0 held, 1 violation (VIOLATION property=<id> replay=<path>), 2 inconclusive (build failure / watchdog). known_findings.json lists known and fixed findings; see DESIGN.md §7."
